@@ -444,7 +444,7 @@ class DepEngine(object):
             if h.type is not None:
                 self.ev(h.type, eh, ctx)
             if h.name:
-                eh.set(h.name, AV(hctx, ['EXC']))
+                eh.set(h.name, AV(frozenset(hctx) | frozenset(['EXC']), ['EXC']))
             th, ch = self.block(h.body, eh, hctx, ctx_local | touched)
             if not th:
                 outs.append((eh, ch))
@@ -963,7 +963,7 @@ class DepEngine(object):
         if name in PURE_PICK_FUNCS:
             return AV(alld, allv)
         if name in ('TypeError', 'ValueError', 'KeyError', 'AttributeError', 'Exception', 'RuntimeError', 'AssertionError', 'NotImplementedError', 'IndexError'):
-            return AV(alld, ['EXC'])
+            return AV(frozenset(alld) | frozenset(['EXC']), ['EXC'])
         # unknown library call: carries everything it was given; may mutate its (named, mutable) arguments
         for a_node in node.args:
             if isinstance(a_node, ast.Name) and env.get(a_node.id) is not None:
